@@ -306,18 +306,29 @@ def resolveArgs (orc : Oracle) (w : World) (dflt : Str) :
       | .panic p => .panic p
 end
 
-/-- is there a foreign key anywhere in the value (also inside arguments)? — what `ForeignKey::new`
-    registers in `ForeignKeysPaths` while parsing -/
-def hasFK : Nat → PV → Bool
-  | 0, _ => false
-  | fuel + 1, pv =>
-    match pv with
-    | .fk _ => true
-    | .comp _ i => hasFK fuel i
-    | .bloc l => l.any (hasFK fuel)
-    | .ranges _ _ bs => bs.any (fun (_, v) => hasFK fuel v)
-    | .plurals _ _ o fs => hasFK fuel o || fs.any (fun (_, v) => hasFK fuel v)
-    | _ => false
+mutual
+/-- is there a foreign key anywhere in the value? — what `ForeignKey::new` registers in `ForeignKeysPaths`
+    while parsing (exact, structural) -/
+def containsFK : PV → Bool
+  | .fk _ => true
+  | .comp _ i => containsFK i
+  | .bloc l => containsFKL l
+  | .ranges _ _ bs => containsFKB bs
+  | .plurals _ _ o fs => containsFK o || containsFKF fs
+  | _ => false
+def containsFKL : List PV → Bool
+  | [] => false
+  | x :: xs => containsFK x || containsFKL xs
+def containsFKB : List (Range × PV) → Bool
+  | [] => false
+  | (_, x) :: xs => containsFK x || containsFKB xs
+def containsFKF : List (Form × PV) → Bool
+  | [] => false
+  | (_, x) :: xs => containsFK x || containsFKF xs
+end
+
+/-- kept for its callers: the fuel argument is ignored -/
+def hasFK (_fuel : Nat) (v : PV) : Bool := containsFK v
 
 /-- `get_merged_plural_at`: the path with its last key replaced by the plural base key it may have been merged
     into (the paths are registered before `merge_plurals`) -/
